@@ -154,6 +154,8 @@ func TestVerifC14(t *testing.T) {
 		fix + "/a", fix + "/a/b", fix + "/link", "a/b", ".", "a/../a/b", fix + "/f", fix + "/linkTmp",
 		"/tmp", "/tmp/", "/tmp/../tmp", "/proc", "/dev", "/sys", "/app/sfw", "/gocache", "/gocache/.",
 		tmpExisting, fix + "/missing", "/", "/usr", "/usr/lib", "/app", fix + "/a/b/../..",
+		// relative spellings that name reserved paths from the working directories / and /tmp
+		"tmp", "proc", "dev/", "./tmp", "../tmp",
 	}
 	workdirs := []string{fix, fix + "/a"}
 	maxLen := 3
@@ -183,7 +185,7 @@ func TestVerifC14(t *testing.T) {
 		r.Eval()
 		key := fmt.Sprintf("spec/wd=%s/%s", filepath.Base(wd), strings.ReplaceAll(strings.Join(list, "|"), root, "$R"))
 		key = strings.ReplaceAll(key, tmpExisting, "$T")
-		rp := map[string]interface{}{"wd_is_a": wd != fix, "list": list, "root": root, "tmp": tmpExisting}
+		rp := map[string]interface{}{"wd_is_a": wd != fix, "wd": wd, "list": list, "root": root, "tmp": tmpExisting}
 		if err != nil {
 			outcomes["error"]++
 			return
@@ -207,6 +209,7 @@ func TestVerifC14(t *testing.T) {
 	if vh.ReplayPath() != "" {
 		var rp struct {
 			WdIsA     bool     `json:"wd_is_a"`
+			Wd        string   `json:"wd"`
 			List      []string `json:"list"`
 			Root, Tmp string
 		}
@@ -217,6 +220,9 @@ func TestVerifC14(t *testing.T) {
 		wd := fix
 		if rp.WdIsA {
 			wd = fix + "/a"
+		}
+		if rp.Wd == "/" || rp.Wd == "/tmp" {
+			wd = rp.Wd
 		}
 		for i := range rp.List {
 			rp.List[i] = strings.ReplaceAll(strings.ReplaceAll(rp.List[i], rp.Root, root), rp.Tmp, tmpExisting)
@@ -237,6 +243,12 @@ func TestVerifC14(t *testing.T) {
 	for _, wd := range workdirs {
 		rec(wd, nil)
 	}
+	// the process's own working directory decides what a relative request means
+	maxLen = 2
+	for _, wd := range []string{"/", "/tmp"} {
+		rec(wd, nil)
+	}
+	maxLen = 3
 	for k, v := range outcomes {
 		r.Count("outcome:"+k, v)
 	}
